@@ -9,15 +9,17 @@ use crate::util::{catch, Out};
 use serde_json::{json, Value};
 use specs::prelude::*;
 
+/// An amount that records *how* it was combined: `+=` builds the expression
+/// "(lhs+rhs)", so both the order and the association of the combination show.
 #[derive(Debug)]
 pub struct Trail {
     cid: u32,
-    parts: Vec<u32>,
+    parts: String,
 }
 impl Trail {
     fn new(cid: u32, amt: u32) -> Trail {
         ledger::created(cid);
-        Trail { cid, parts: vec![amt] }
+        Trail { cid, parts: amt.to_string() }
     }
 }
 impl Drop for Trail {
@@ -26,8 +28,8 @@ impl Drop for Trail {
     }
 }
 impl std::ops::AddAssign for Trail {
-    fn add_assign(&mut self, mut o: Trail) {
-        self.parts.append(&mut o.parts);
+    fn add_assign(&mut self, o: Trail) {
+        self.parts = format!("({}+{})", self.parts, o.parts);
     }
 }
 
@@ -128,11 +130,11 @@ fn run_script(script: &Value) -> Value {
         if lend {
             let mut it = (&mut cs).lend_join();
             while let Some(t) = it.next() {
-                t.parts.push(tag);
+                t.parts = format!("({}+{})", t.parts, tag);
             }
         } else {
             for t in (&mut cs).join() {
-                t.parts.push(tag);
+                t.parts = format!("({}+{})", t.parts, tag);
             }
         }
         let after_mut = listing(&all, &cs, !lend);
